@@ -9,6 +9,12 @@ NOTE = ('Trusted: Lean 4.33 kernel; axioms within {propext, Classical.choice, Qu
         'Python generators/oracles; 64-bit usize.')
 
 CLAIMS = {
+ 'C13': dict(category='proof', technique='Lean 4 round-trip theorems (encoder/parser inverse for all field values) + curve-type rejection + content/signature switch, with exact-value and exhaustive code-point correspondence',
+   text='Theorems dh_roundtrip, explicitPrime_roundtrip, ecParameters_roundtrip (all 65536 named groups; explicit prime with all six u8-length fields), ecdh_roundtrip, digitallySigned(_Old)_roundtrip — each of the form parse (enc v ++ r) = ok r v for every v within field ranges and every trailing r, i.e. exact value and exact self-delimitation; curve_type_rejected for every curve type other than 1 and 3; contentAndSignature_eq / _roundtrip for any content parser and both flag values. Tie: independent Python encoder (exact), all 256 curve types, named-group sweep, corruptions and all truncations.',
+   design_ref='DESIGN.md section 6 C13'),
+ 'C14': dict(category='proof', technique='Lean 4 round-trip theorem over all SCT lists (induction via many0_complete_roundtrip) + overrun theorems + exact-value correspondence',
+   text='Theorems sctContent_roundtrip, sct_roundtrip (single entry consumes exactly one length-prefixed entry), sctList_roundtrip (every list of well-formed SCTs, any length, parses to exactly those SCTs in order), sctList_overrun and sctEntries_stop_at_overrun. Tie: independent RFC 6962 encoder with boundary lengths, nested length corruptions, entry/list overrun families with exact/class oracles, the captured list from tests/.',
+   design_ref='DESIGN.md section 6 C14'),
  'C07': dict(category='proof', technique='Lean 4 theorems on the defragmenter state machine (generic in the payload parser): accumulate_then_parse by induction over fragments, refusals, buffer_bound invariant over all histories, fresh-equivalence bisimulation + history correspondence with hook observations',
    text='Theorems (for any one-shot payload parser R and any byte type): fast_path, refuse_other_type / refuse_too_large / nocopy_refuses (state unchanged), buffer_bound (invariant over every operation sequence), idle_behaves_fresh (bisimulation: a non-defragmenting parser, whatever its stale buffer, is output-equivalent to a fresh one on every future history; reset gives init), accumulate_then_parse / continuation_phase (induction over the fragment list: every call but the last answers Incomplete and stays in progress, the last returns R on the accumulated bytes with the pseudo header), accAll_eq_concat, and handshake_prefix_fragLike / handshake_cut_incomplete discharging the fragment hypothesis for cuts anywhere incl. inside the 4-byte header. Tie: thousands of generated histories (k-way splits, empty fragments, interleaved foreign records and nocopy calls, resets, chained messages, a stream to the 10 MiB cap) compared step by step with an accumulate-then-parse oracle and with the model, observing buffer length and in-progress flag through the hook.',
    design_ref='DESIGN.md section 6 C07'),
